@@ -3,9 +3,10 @@
 Spec:     specs/ChainProp.tla (the property on observables: every run of a chain shape completes, every
           link/probe/generator observation arrives once, in order, with the predicted argument, and the
           frame depth of each kind of observation point is one number for all links and all lengths);
-          ChainPropMC (exhaustive TLC), ChainPropTrace (trace validation); ChainImpl (the chain-list
-          algorithm of _runCallbacks and the unfolded loop of _inlineCallbacks with an explicit
-          activation stack, checked by TLC to produce only ChainProp behaviours).
+          ChainPropMC (exhaustive TLC), ChainPropTrace (trace validation); ChainImplMC (the coded
+          chain-list algorithm of _runCallbacks = DeferredImpl.tla driven along the chain shapes, lengths
+          1..8: one activation only) and InlineLoop (the unfolded loop of _inlineCallbacks with an explicit
+          activation stack: constant depth for fired awaits, bounded for any script, always completes).
 Binding:  real Deferred chains (each callback returns the next Deferred; outer-first, inner-first, paused,
           failing), a Deferred whose n callbacks each return a fired Deferred, inlineCallbacks generators
           and coroutines awaiting n fired / failed Deferreds -- run at lengths 10 .. 10^5 with the default
@@ -15,7 +16,8 @@ import sys
 
 META = dict(
     id="C02",
-    specs=["ChainProp.tla", "ChainPropMC.tla", "ChainPropTrace.tla", "ChainImpl.tla", "ChainImplMC.tla"],
+    specs=["ChainProp.tla", "ChainPropMC.tla", "ChainPropTrace.tla", "ChainImplMC.tla", "DeferredImpl.tla",
+           "InlineLoop.tla", "InlineLoopMC.tla"],
     technique="TLA+ statement of constant chaining depth on observables (TLC exhaustive over all shapes and small lengths; "
               "algorithm model with explicit activation stack checked against it) + TLC trace validation of real chains, "
               "generators and coroutines of length 10..10^5 with per-callback frame-depth observations",
@@ -270,6 +272,20 @@ def run(ctx):
     if not r.ok:
         raise MachineryError("ChainProp violates its own invariants: " + r.error)
     ctx.require_actions("ChainPropMC", ["Begin", "Observe", "End"])
+    # algorithm level: the coded _runCallbacks loop on chain-shaped programs (lengths 1..8), one activation only
+    r = ctx.mc("ChainImplMC", "ChainImplMC.cfg")
+    if not r.ok:
+        raise MachineryError("ChainImplMC: the modelled chain-list algorithm breaks DepthOne/Refines: %s\n%s" % (r.error, (r.cex or [""])[-1][:1200]))
+    ctx.require_actions("ChainImplMC", ["DoAdd", "DoFire", "DoPause", "DoUnpause", "LoopOuter", "LoopInner", "LoopAfter"])
+    # algorithm level: the unfolded loop of _inlineCallbacks, all fired/unfired scripts up to 8 awaits
+    r = ctx.mc("InlineLoopMC", "InlineLoopMC.cfg")
+    if not r.ok:
+        raise MachineryError("InlineLoopMC: the modelled _inlineCallbacks loop breaks its depth invariants: %s\n%s" % (r.error, (r.cex or [""])[-1][:1200]))
+    ctx.require_actions("InlineLoopMC", ["Send", "AddBoth", "Got", "Check", "Ret", "Fire"])
+    # vacuity witness: the naive (recursive) loop must violate the same invariants
+    r = ctx.mc("InlineLoopMC", "InlineLoopMC.naive.cfg", must_pass=False, coverage=False, label="witness: naive recursion must fail")
+    if r.ok or r.kind != "invariant":
+        raise MachineryError("vacuity: the depth invariants of InlineLoop do not reject the recursive algorithm (%s)" % (r.error or "passed"))
 
     big = ("S1", "S3", "S1E", "G1", "G2", "G3", "G4")
     traces = []
